@@ -43,13 +43,15 @@ def gen_program(rng, tags):
     n = rng.randrange(2, 7)
     names = rng.sample(NAME_POOL, n)
     syms, fns = [], []
+    sizes = {}
     for i, nm in enumerate(names):
-        syms.append((0x1000 + 0x100 * i, 0x80, "T", nm))
+        sizes[nm] = rng.choice((0x40, 0x80, 0x80, 0xc0))       # the Size column / -s size
+        syms.append((0x1000 + 0x100 * i, sizes[nm], "T", nm))
         fns.append(Fn(BASE + 0x1000 + 0x100 * i, nm))
     r = rng.random()
     if r < 0.25:        # a second symbol with an existing name (static functions of two files)
         nm = rng.choice(names)
-        syms.append((0x1000 + 0x100 * n, 0x80, "t", nm))
+        syms.append((0x1000 + 0x100 * n, sizes[nm], "t", nm))
         fns.append(Fn(BASE + 0x1000 + 0x100 * n, nm))
         tags.append("same-name-two-symbols")
     elif r < 0.4:       # a second address inside an existing symbol
@@ -320,6 +322,24 @@ CORPUS.append(
      "tasks": [{"tid": 100, "marked_truth": True,
                 "recs": [(ENTRY, 0, BASE + 0x1000, 1000), (ENTRY, 1, BASE + 0x1100, 1100), (LOST, 0, 1, 0),
                          (EXIT, 1, BASE + 0x1100, 1900), (LOST, 0, 1, 0), (EXIT, 0, BASE + 0x1000, 2000)]}]})
+CORPUS.append(
+    # fixed 5fe3294 / b241d75 / a863f9f: the stdv column (zero mean, calls longer than 4.29 s, sigma/mean)
+    {"kind": "forest", "max_stack": 1024, "tags": ["corpus:stdv"],
+     "syms": [(0x1000, 0x80, "T", "main"), (0x1100, 0x80, "T", "work"), (0x1200, 0x80, "T", "zero"), (0x1300, 0x80, "T", "big")],
+     "fns": [(BASE + 0x1000, "main"), (BASE + 0x1100, "work"), (BASE + 0x1200, "zero"), (BASE + 0x1300, "big")],
+     "tasks": [{"tid": 100, "forest": [[0, 1000, 11 * 10 ** 9 + 5000,
+                                        [[1, 2000, 2100, []], [1, 2200, 2500, []], [2, 2600, 2600, []], [2, 2700, 2700, []],
+                                         [3, 3000, 3000 + 5 * 10 ** 9, []], [3, 4000 + 5 * 10 ** 9, 4000 + 11 * 10 ** 9, []]]]]}]})
+CORPUS.append(
+    # known finding lost-in-inherited-data: a LOST marker in data that starts at depth > 0 (user_stack_count was
+    # never set to the inherited depth) closes the innermost open call with 1 ns and counts it twice
+    {"kind": "lost", "max_stack": 1024, "tags": ["corpus:lost-in-inherited-data"],
+     "syms": [(0x1000, 0x80, "T", "main"), (0x1100, 0x80, "T", "work"), (0x1200, 0x80, "T", "leaf"), (0x1300, 0x80, "T", "fork")],
+     "fns": [(BASE + 0x1000, "main"), (BASE + 0x1100, "work"), (BASE + 0x1200, "leaf"), (BASE + 0x1300, "fork")],
+     "tasks": [{"tid": 100, "recs": [(EXIT, 1, BASE + 0x1300, 1310), (ENTRY, 1, BASE + 0x1100, 1400),
+                                     (ENTRY, 2, BASE + 0x1200, 1500), (LOST, 0, 1, 0), (EXIT, 2, BASE + 0x1200, 1800),
+                                     (EXIT, 1, BASE + 0x1100, 1900), (EXIT, 0, BASE + 0x1000, 2000)]}]})
+WITNESS_LOST_INHERITED = "corpus:lost-in-inherited-data"
 WITNESS_LOST_WRAP = "corpus:lost-after-inherited-wrap"
 
 
@@ -397,7 +417,8 @@ def merge_order(case):
 
 def run_harness(exe, d, keysets):
     rc, out, err = sh(["timeout", "30", exe, d] + [",".join(k) for k in keysets], timeout=40)
-    res = {"rows": {}, "grows": [], "nodes": [], "sorts": [], "ok": False, "raw": out[-2000:], "err": err[-500:], "rc": rc}
+    res = {"rows": {}, "grows": [], "nodes": [], "sorts": [], "fsorts": [], "stdv": [], "ok": False,
+           "raw": out[-2000:], "err": err[-500:], "rc": rc}
     for line in out.splitlines():
         p = line.split()
         if not p:
@@ -406,9 +427,13 @@ def run_harness(exe, d, keysets):
             res["rows"].setdefault(int(p[1]), []).append((p[2], int(p[3]), int(p[4]), p[5] == "1"))
             res["grows"].append((p[2], int(p[3]), int(p[4]), p[5] == "1"))
         elif p[0] == "N":
-            res["nodes"].append((p[1],) + tuple(int(x) for x in p[2:]))
+            res["nodes"].append((p[1],) + tuple(int(x) for x in p[2:13]))
+            res["stdv"].append((p[1], p[13], p[14]))
         elif p[0] == "S":
-            res["sorts"].append((p[1].split(","), p[2:]))
+            if p[1] in ("total_stdv", "self_stdv"):
+                res["fsorts"].append((p[1] == "total_stdv", p[2:]))
+            else:
+                res["sorts"].append((p[1].split(","), p[2:]))
         elif p[0] == "E" and p[1] == "ok":
             res["ok"] = True
     return res
@@ -433,7 +458,7 @@ def parse_cell(txt):
     return ("raw", s)
 
 
-def parse_report(out):
+def parse_report(out, raw=False):
     """-> (header names, rows [(cells..., name)]) using the ==== line for the column positions"""
     lines = [l for l in out.splitlines() if not l.startswith("#")]
     sep = next((i for i, l in enumerate(lines) if l.strip().startswith("=====")), None)
@@ -445,7 +470,7 @@ def parse_report(out):
     for l in lines[sep + 1:]:
         if not l.strip():
             continue
-        cells = [parse_cell(l[a:b]) for a, b in cols[:-1]]
+        cells = [(l[a:b] if raw else parse_cell(l[a:b])) for a, b in cols[:-1]]
         rows.append((cells, l[cols[-1][0]:].strip()))
     return heads, rows
 
@@ -475,6 +500,15 @@ def q_truth(case):
                                    q_list(["mkof %d %d %s" % (a, t0, q_list([q_call(k) for k in kids]))
                                            for a, t0, kids in opened])))
     return "Some " + q_list(tts)
+
+
+def span_of(case):
+    """time spanned by the records of the case (LOST markers carry time 0: not counted); kinds whose figures are
+    not bounded by construction (EXIT at stack 0 reads a stale slot) get no bound"""
+    if case["kind"] in ("extra-exit",):
+        return (1 << 64) - 1
+    ts = [r[3] for t in case["tasks"] for r in t["recs"] if r[0] != LOST]
+    return (max(ts) - min(ts)) if ts else 0
 
 
 def inherited_counts(case):
@@ -509,16 +543,22 @@ def q_cell(c):
     return "Some (0, 0, 77)"          # something the model never prints
 
 
-PRE = """From Coq Require Import NArith List Bool.
+PRE = """From Coq Require Import NArith ZArith List Bool Floats.
 Import ListNotations.
-Require Import UV.C08.Model.
+Require Import UV.C08.Model UV.C08.Stdv.
 Local Open Scope N_scope.
 Definition E := mkrec ENTRY. Definition X := mkrec EXIT. Definition L := mkrec LOST.
 Definition nd nm call ts tr ta tmi tma ss sr sa smi sma :=
   mknode nm call (mkstat ts tr tmi tma ta) (mkstat ss sr smi sma sa).
 Record tcase := mk { tc : case; i_rows : list (list (N * N * N * bool)); i_tbl : list node;
                      i_sorts : list (list key * list N); i_truth : option (list ttrace);
-                     i_order : list nat; i_grows : list (N * N * N * bool); i_inh : list nat }.
+                     i_order : list nat; i_grows : list (N * N * N * bool); i_inh : list nat; i_span : N }.
+(* sanity bound for data the exact checker does not judge (LOST markers with unbalanced drops): no figure of a
+   node exceeds the time the data spans, Self never exceeds Total *)
+Definition prop_bounded t :=
+  forallb (fun n => (smax (n_total n) <=? i_span t) && (smax (n_self n) <=? smax (n_total n))
+                    && (sum (n_self n) <=? sum (n_total n) + recs (n_total n))
+                    && (sum (n_total n) + recs (n_total n) <=? n_call n * i_span t)) (i_tbl t).
 (* generator self-check: the ground truth flattens to the records written, LOST markers erased, preceded by one
    ENTRY record of address 0 at the first record's time per frame open when the data begins *)
 Definition zeros' (k : nat) (rs : list rec) : list rec :=
@@ -556,19 +596,57 @@ Record ecase := mke { ec : case; e_tbl : list node; e_runs : list (avg_mode * op
                       e_other : option (case * list node * list dline) }.
 Definition e_model_ok t := forallb (fun r => let '(m, s, f, out) := r in lines_eqb (stdout_model (report_keys m s f) (report_fields m f) (report (ec t))) out) (e_runs t).
 Definition e_prop_ok t := negb (e_clean t) || forallb (fun r => let '(m, s, f, out) := r in ok_stdout (report_keys m s f) (report_fields m f) (e_tbl t) out) (e_runs t).
-Definition e_task_model t := match e_task t with [] => true | l =>
+Definition e_task_model t := existsb (existsb is_lost) (c_tasks (ec t)) || match e_task t with [] => true | l =>
    lines_eqb (map (fun p => (snd p, [fst (fst p); snd (fst p)])) l)
              (map (fun rs => let '(tot, n) := task_line (c_max (ec t)) rs in (n, [fmt_time tot; fmt_time tot])) (c_tasks (ec t))) end.
 Definition e_task_prop t := match e_task t, e_truth t with
    | [], _ => true | _, None => true
-   | l, Some tts => forallb (fun p => match tt_open (snd p) with
-                                      | [] => ok_cell (top_time (snd p)) (fst (fst (fst p))) && ok_cell (top_time (snd p)) (snd (fst (fst p)))
-                                      | _ => true end) (combine l tts) end.
+   | l, Some tts => forallb (fun p => ok_cell (top_time (snd p)) (fst (fst (fst p))) && ok_cell (top_time (snd p)) (snd (fst (fst p))))
+                            (combine l tts) end.
 Definition e_diff_prop t := forallb (forallb (fun c => match c with None => true | _ => false end)) (e_diff0 t).
 Definition e_diff2_model t := match e_other t with None => true
    | Some (c2, _, out) => diff_stdout_agrees (report (ec t)) (report c2) out end.
 Definition e_diff2_prop t := match e_other t with None => true
    | Some (_, tbl2, out) => ok_diff_stdout (e_tbl t) tbl2 out && nonincreasing (map (fun l => absdiff_of (e_tbl t) tbl2 (fst l)) out) end.
+(* the stdv columns: raw doubles of the node table, row orders for the keys total_stdv / self_stdv, printed "%9.2f%%" *)
+Record scase := mks { sc : case; s_order : list nat; s_truth : option (list ttrace);
+                      s_raw : list (N * float * float); s_fsorts : list (bool * list N);
+                      s_printed : list (bool * list (N * option Z)) }.
+Definition s_model t := report_stdv (c_names (sc t)) (merged_rows (c_max (sc t)) (length (c_tasks (sc t))) (weave (s_order t) (c_tasks (sc t)))).
+Definition pick (tot : bool) (x : N * float * float) : N * float := let '(n, a, b) := x in (n, if tot then a else b).
+Fixpoint stdv3_eqb (a b : list (N * float * float)) : bool :=
+  match a, b with
+  | [], [] => true
+  | (n1, a1, b1) :: a', (n2, a2, b2) :: b' => (n1 =? n2) && feq a1 a2 && feq b1 b2 && stdv3_eqb a' b'
+  | _, _ => false
+  end.
+Definition lookup_f (l : list (N * float)) (nm : N) : float :=
+  match find (fun x => fst x =? nm) l with Some x => snd x | None => nan end.
+Definition oz_eqb (a b : option Z) := match a, b with Some x, Some y => Z.eqb x y | None, None => true | _, _ => false end.
+Definition s_raw_ok t := stdv3_eqb (s_model t) (s_raw t).
+Definition s_sort_ok t := forallb (fun p => list_eqb (sort_f (map (pick (fst p)) (s_model t))) (snd p)) (s_fsorts t).
+Definition s_print_ok t := forallb (fun p => let m := map (pick (fst p)) (s_model t) in
+                                     forallb (fun r => oz_eqb (hundredths (lookup_f m (fst r))) (snd r)) (snd p)
+                                     && list_eqb (sort_f m) (map fst (snd p))) (s_printed t).
+Definition vals_of t (tot : bool) (nm : N) : list N :=
+  match s_truth t with
+  | Some tts => map (fun w => if tot then w_total w else w_self w)
+                    (filter (fun w => name_of (c_names (sc t)) (w_addr w) =? nm) (concat (map spec_task tts)))
+  | None => []
+  end.
+Definition s_raw_prop t := match s_truth t with None => true | Some _ =>
+   forallb (fun x => let '(n, a, b) := x in
+                     match hundredths a, hundredths b with
+                     | Some pa, Some pb => ok_stdv pa (vals_of t true n) && ok_stdv pb (vals_of t false n)
+                     | _, _ => false end) (s_raw t) end.
+Definition s_sort_prop t := forallb (fun p => let raw := map (pick (fst p)) (s_raw t) in
+                                               sorted_f (map (fun nm => (nm, lookup_f raw nm)) (snd p))) (s_fsorts t).
+Fixpoint noninc_z (l : list (option Z)) : bool :=
+  match l with Some a :: ((Some b :: _) as t) => Z.leb b a && noninc_z t | [_] => true | [] => true | _ => false end.
+Definition s_print_prop t := forallb (fun p => noninc_z (map snd (snd p))
+                                      && match s_truth t with None => true | Some _ =>
+                                           forallb (fun r => match snd r with Some pz => ok_stdv pz (vals_of t (fst p) (fst r)) | None => false end) (snd p) end)
+                                     (s_printed t).
 """
 
 
@@ -581,9 +659,9 @@ def q_tcase(case, res, amap, num):
                     for ks, order in res["sorts"]])
     grows = q_list(["(%d, %d, %d, %s)" % (num.get(n, 0), tot, slf, coq.coq_bool(rc and tot != 0))
                     for n, tot, slf, rc in res["grows"]])
-    return "mk (%s) %s %s %s (%s) %s %s %s" % (q_case(case, amap), q_list(rows), q_list([q_node(n, num) for n in res["nodes"]]),
+    return "mk (%s) %s %s %s (%s) %s %s %s %d" % (q_case(case, amap), q_list(rows), q_list([q_node(n, num) for n in res["nodes"]]),
                                             sorts, q_truth(case), q_list(["%d%%nat" % i for i in merge_order(case)]), grows,
-                                            q_list(["%d%%nat" % k for k in inherited_counts(case)]))
+                                            q_list(["%d%%nat" % k for k in inherited_counts(case)]), span_of(case))
 
 
 # ---------------------------------------------------------------- end-to-end option sets
@@ -604,6 +682,11 @@ def e2e_option_sets(rng):
     which = rng.choice(["total", "self"])
     short = rng.sample(["avg", "min", "max"], 2)
     sets.append((["--avg-" + which, "-s", ",".join(short)], "AVG_" + which.upper(), short, None))
+    # -f +FIELD adds to the default columns; all = every column; none = no column
+    extra = rng.sample(FIELDS, rng.randrange(1, 3))
+    sets.append((["-f", "+" + ",".join(extra)], "AVG_NONE", None, ["total", "self", "call"] + extra))
+    sets.append((["-f", "all"], "AVG_NONE", None, FIELDS))
+    sets.append((["-f", "none"], "AVG_NONE", None, []))
     # with -f the --avg-* option is ignored (a warning only)
     which = rng.choice(["total", "self"])
     fs = rng.sample(FIELDS, rng.randrange(1, 4))
@@ -617,6 +700,24 @@ def q_skey(k):
 
 def q_opt(x):
     return "None" if x is None else "(Some %s)" % x
+
+
+def diff_text_is_zero(txt):
+    """a cell of `report --diff` (any policy) that shows no difference: "0 us", "+0", "+0.00%", "+0.00%pt",
+    "N/A" (nothing to compare), and with the full policy two equal figures in front of it"""
+    t = txt.split()
+    if not t:
+        return False
+    ok = (t[-1] in ("+0", "+0.00%", "-0.00%", "N/A", "+0.00%pt", "-0.00%pt")) or (t[-2:] == ["0", "us"])
+    if not ok:
+        return False
+    front = t[:-2] if t[-2:] == ["0", "us"] else t[:-1]
+    if front:                                  # full policy: base and pair figures
+        if len(front) % 2:
+            return False
+        h = len(front) // 2
+        return front[:h] == front[h:]
+    return True
 
 
 def nm_of(case, a):
@@ -646,6 +747,8 @@ def run_e2e(ctx, objdir, case, d, res, amap, num, exe2=None):
     for argv, mode, ks, fs in e2e_option_sets(ctx.rng):
         rc, out, err = datadir.uftrace(objdir, "report", d, argv)
         pr = parse_report(out)
+        if argv == ["-f", "none"] and rc == 0:          # no columns at all: one function name per line
+            pr = (["Function"], [([], l.strip()) for l in out.splitlines() if l.strip()])
         if rc != 0 or pr is None:
             if res["nodes"]:
                 ctx.violation("uftrace report %s failed (rc=%d) on a well-formed data directory" % (" ".join(argv), rc),
@@ -653,14 +756,15 @@ def run_e2e(ctx, objdir, case, d, res, amap, num, exe2=None):
             continue
         heads, rows = pr
         # --avg-* add a stdv column that the model does not describe: drop it
-        keep = [i for i, h in enumerate(heads[:-1]) if "stdv" not in h]
+        # (the stdv columns are checked by stdv_e2e, the Size column by size_e2e)
+        keep = [i for i, h in enumerate(heads[:-1]) if "stdv" not in h and h != "Size"]
         lines = ["(%d, %s)" % (num.get(name, 0), q_list([q_cell(cells[i]) for i in keep])) for cells, name in rows]
         runs.append("(%s, %s, %s, %s)" % (mode, q_opt(None if ks is None else q_list([q_skey(k) for k in ks])),
                                           q_opt(None if fs is None else q_list([q_fld(f) for f in fs])), q_list(lines)))
         ctx.tag("e2e:" + (argv[0] if argv else "default"))
     # --task (LOST-free tasks only: the model of report_task covers those)
     task_lines = []
-    if case["kind"] in ("forest",):
+    if case["kind"] in ("forest", "marked", "suffix"):
         rc, out, err = datadir.uftrace(objdir, "report", d, ["--task", "-s", "tid"])
         pr = parse_report(out)
         if rc == 0 and pr:
@@ -685,6 +789,19 @@ def run_e2e(ctx, objdir, case, d, res, amap, num, exe2=None):
         ctx.tag("e2e:--diff-self")
     elif res["nodes"]:
         ctx.violation("uftrace report --diff DIR DIR failed (rc=%d)" % rc, {"case": case_json(case), "stderr": err[-800:]}, True)
+    # ... under every diff policy, field selection and avg mode
+    for extra in (["--diff-policy", "full"], ["--diff-policy", "percent"], ["--diff-policy", "full,percent"],
+                  ["--diff-policy", "no-abs", "-s", "self"], ["-f", "all"], ["--avg-total"], ["--avg-self", "--diff-policy", "full"]):
+        rc, out, err = datadir.uftrace(objdir, "report", d, ["--diff", d] + extra)
+        pr = parse_report(out, raw=True)
+        if rc != 0 or pr is None:
+            if res["nodes"]:
+                ctx.violation("uftrace report --diff DIR DIR %s failed (rc=%d)" % (" ".join(extra), rc),
+                              {"case": case_json(case), "stderr": err[-800:]}, True)
+            continue
+        for cells, name in pr[1]:
+            diff0.append(q_list(["None" if diff_text_is_zero(c) else "Some (0, 0, 77)" for c in cells]))
+        ctx.tag("e2e:--diff-self " + " ".join(extra))
     # --diff against another data set of the same program (model: pairing by name, order by |difference of Total|)
     other = "None"
     if case["kind"] == "forest" and exe2:
@@ -746,7 +863,12 @@ def common_meta(ctx):
                 "short keys, --avg-* with -f), --task, --diff DIR DIR and --diff against a second generated data set; "
                 "distinct = distinct record lists; non-trivial = >= 2 nesting levels and >= 1 boundary tag")
     ctx.trusted = [
-        "Coq 8.16.1 kernel incl. vm_compute; no axioms (Print Assumptions: closed under the global context)",
+        "Coq 8.16.1 kernel incl. vm_compute; no axioms (Print Assumptions: closed under the global context, except "
+        "the three C08_stdv_*_legacy_refuted statements, which compute with Coq's primitive 63-bit integers and "
+        "binary64 floats: Print Assumptions lists those primitives - PrimInt63.*, PrimFloat add/sub/mul/div/sqrt/"
+        "of_uint63/ltb/... - and nothing else)",
+        "coq/theories/C08/Stdv.v: the stdv column computed with Coq's primitive floats = the machine's IEEE-754 "
+        "binary64 arithmetic under vm_compute (compared bit for bit with the implementation's doubles)",
         "hand-written model coq/theories/C08/Model.v of fstack_account_time/fstack_update_stack_count (utils/fstack.c), "
         "build_function_tree/add_lost_fstack/add_remaining_fstack/report_task (cmds/report.c), report_update_node/"
         "finish_time_stat/insert_node/report_diff_nodes (utils/report.c), __print_time_unit (utils/debug.c); the two "
@@ -759,7 +881,8 @@ def common_meta(ctx):
         "no filters/triggers/time range/kernel or event records (those are C07's); default depth 1024 >= max_stack",
         "symbol lookup is taken as given (C10); the order in which read_rstack merges tasks is compared (merged_rows) "
         "but not derived: theorem C08_merge_irrelevant shows the report is the same for every interleaving",
-        "total-stdv/self-stdv (floating point) are not modelled or compared; sort keys *_stdv and `size` are not generated; "
+        "the Size column and the key `size` are judged in props/c08.py (a symbol's size is no figure of the trace; the "
+        "Coq model has no size); "
         "--diff is exercised with the default policy/key only; rows of equal |difference| are compared as a set; the "
         "sign of a time difference is judged (minus = decrease)",
         "LOST markers with whole calls dropped (kind `marked`) are judged by the checkers against the forest of the "
@@ -774,7 +897,7 @@ def common_meta(ctx):
 
 
 def setup(ctx):
-    coq.prove(ctx, "C08")
+    coq.prove(ctx, "C08", extra_files=["C08/Stdv"])
     objdir = build.get_build("plain", ctx.log)
     exe = os.path.join(ctx.scratch, "c08_harness")
     build.cc([os.path.join(os.path.dirname(__file__), "../harness/c/c08_harness.c"), build.uf_archive(objdir)],
@@ -782,8 +905,82 @@ def setup(ctx):
     return objdir, exe
 
 
+def q_float(txt):
+    """C's %a -> Coq float literal"""
+    t = txt.strip()
+    if "nan" in t:
+        return "nan"
+    if "inf" in t:
+        return "neg_infinity" if t.startswith("-") else "infinity"
+    return "(%s)%%float" % t
+
+
+def q_oz(x):
+    return "None" if x is None else "(Some (%d)%%Z)" % x
+
+
+def q_scase(case, res, amap, num, printed):
+    raw = q_list(["(%d, %s, %s)" % (num.get(n, 0), q_float(a), q_float(b)) for n, a, b in res["stdv"]])
+    fs = q_list(["(%s, %s)" % (coq.coq_bool(tot), q_list([str(num.get(n, 0)) for n in order])) for tot, order in res["fsorts"]])
+    pr = q_list(["(%s, %s)" % (coq.coq_bool(tot), q_list(["(%d, %s)" % (num.get(n, 0), q_oz(pz)) for n, pz in rows]))
+                 for tot, rows in printed])
+    return "mks (%s) %s (%s) %s %s %s" % (q_case(case, amap), q_list(["%d%%nat" % i for i in merge_order(case)]),
+                                          q_truth(case), raw, fs, pr)
+
+
+def size_e2e(ctx, objdir, case, d):
+    """the Size column and -s size: Size = size of the symbol the row is named after (0 without a symbol), rows
+    in descending Size order (judged here: a symbol's size is not a figure of the trace, the Coq model has no size)"""
+    rc, out, err = datadir.uftrace(objdir, "report", d, ["-f", "size,call", "-s", "size,func"])
+    pr = parse_report(out)
+    if rc != 0 or pr is None:
+        return
+    heads, rows = pr
+    ci = heads.index("Size") if "Size" in heads else None
+    if ci is None:
+        return
+    want = {}
+    for a, sz, _, n in case["syms"]:
+        want[n] = sz
+    got = [(name, cells[ci][1] if cells[ci] and cells[ci][0] == "count" else None) for cells, name in rows]
+    bad = [(n, v) for n, v in got if v != want.get(n, 0)]
+    order_ok = all(got[i][1] > got[i + 1][1] or (got[i][1] == got[i + 1][1] and got[i][0].encode() < got[i + 1][0].encode())
+                   for i in range(len(got) - 1)) if not bad else True
+    if bad or not order_ok:
+        ctx.violation("uftrace report -f size -s size: %s" % ("Size is not the symbol's size: %s" % bad[:3] if bad
+                                                                else "rows are not in descending Size order: %s" % got),
+                      {"case": case_json(case), "stdout": out[-1500:]}, True)
+    ctx.tag("e2e:-s size")
+
+
+def stdv_e2e(ctx, objdir, d):
+    """`--avg-total -s stdv` / `--avg-self -s stdv`: the printed stdv column, in printed order"""
+    out_ = []
+    for tot, arg in ((True, "--avg-total"), (False, "--avg-self")):
+        rc, out, err = datadir.uftrace(objdir, "report", d, [arg, "-s", "stdv"])
+        pr = parse_report(out)
+        if rc != 0 or pr is None:
+            continue
+        heads, rows = pr
+        col = next((i for i, h in enumerate(heads) if "stdv" in h), None)
+        if col is None:
+            continue
+        lst = []
+        for cells, name in rows:
+            c = cells[col]
+            pz = None
+            if c is not None and c[0] == "raw":
+                m = re.match(r"^(-?)(\d+)\.(\d\d)%$", c[1])
+                if m:
+                    pz = (-1 if m.group(1) else 1) * (int(m.group(2)) * 100 + int(m.group(3)))
+            lst.append((name, pz))
+        out_.append((tot, lst))
+        ctx.tag("e2e:%s -s stdv" % arg)
+    return out_
+
+
 def gen_keysets(rng):
-    ks = [["total"], ["func"], ["call", "func"]]
+    ks = [["total"], ["func"], ["call", "func"], ["total_stdv"], ["self_stdv"]]
     for _ in range(3):
         ks.append(rng.sample(KEYS, rng.randrange(1, 4)))
     return ks
@@ -801,7 +998,10 @@ def explore(ctx, objdir, exe, cases, n_e2e):
                           % (res["rc"], res["err"] or res["raw"][-300:]), {"case": case_json(case)}, True)
             continue
         case["impl"] = {"nodes": res["nodes"], "sorts": res["sorts"]}
-        terms.append(q_tcase(case, res, amap, num))
+        printed = stdv_e2e(ctx, objdir, d) if ci < n_e2e else []
+        if ci < n_e2e and case["kind"] in ("forest", "marked"):
+            size_e2e(ctx, objdir, case, d)
+        terms.append((q_tcase(case, res, amap, num), q_scase(case, res, amap, num, printed)))
         kept.append(case)
         if ci < n_e2e:
             et = run_e2e(ctx, objdir, case, d, res, amap, num, exe2=exe)
@@ -818,7 +1018,8 @@ def explore(ctx, objdir, exe, cases, n_e2e):
 
 
 def evaluate(ctx, terms, eterms):
-    defs = "Definition cases : list tcase := [\n%s\n].\n" % ";\n".join(terms)
+    defs = "Definition cases : list tcase := [\n%s\n].\n" % ";\n".join(t[0] for t in terms)
+    defs += "Definition scases : list scase := [\n%s\n].\n" % ";\n".join(t[1] for t in terms)
     defs += "Definition ecases : list ecase := [\n%s\n].\n" % ";\n".join(eterms)
     labels = [("gen_truth", "bad_indices truth_ok cases 0"),
               ("m_rows", "bad_indices rows_ok cases 0"),
@@ -827,13 +1028,20 @@ def evaluate(ctx, terms, eterms):
               ("m_sort", "bad_indices sorts_ok cases 0"),
               ("v_table", "bad_indices prop_table cases 0"),
               ("v_sorted", "bad_indices prop_sorted cases 0"),
+              ("v_bounded", "bad_indices prop_bounded cases 0"),
               ("m_stdout", "bad_indices e_model_ok ecases 0"),
               ("v_stdout", "bad_indices e_prop_ok ecases 0"),
               ("m_task", "bad_indices e_task_model ecases 0"),
               ("v_task", "bad_indices e_task_prop ecases 0"),
               ("v_diff", "bad_indices e_diff_prop ecases 0"),
               ("m_diff2", "bad_indices e_diff2_model ecases 0"),
-              ("v_diff2", "bad_indices e_diff2_prop ecases 0")]
+              ("v_diff2", "bad_indices e_diff2_prop ecases 0"),
+              ("m_stdv", "bad_indices s_raw_ok scases 0"),
+              ("m_stdv_sort", "bad_indices s_sort_ok scases 0"),
+              ("m_stdv_print", "bad_indices s_print_ok scases 0"),
+              ("v_stdv", "bad_indices s_raw_prop scases 0"),
+              ("v_stdv_sort", "bad_indices s_sort_prop scases 0"),
+              ("v_stdv_print", "bad_indices s_print_prop scases 0")]
     res = coq.run_cases(ctx, "cases", PRE, defs, labels)
     if res is None:
         return None
@@ -843,10 +1051,15 @@ def evaluate(ctx, terms, eterms):
 WHAT = {
     "v_table": "report node table is not the exact sums of the trace (Calls/Total/Self/min/max/avg or Self conservation)",
     "v_sorted": "report rows do not follow the requested sort keys",
+    "v_bounded": "a figure of the report exceeds the time the data spans (wrapped or garbage duration), or Self exceeds Total",
     "v_stdout": "`uftrace report` prints a figure that is not the node's value, or rows out of key order",
     "v_task": "`uftrace report --task`: a task's total is not the summed duration of its top-level calls",
     "v_diff": "`uftrace report --diff` of a data set against itself reports a difference",
     "v_diff2": "`uftrace report --diff`: a printed difference is not (other - base) of the two node tables",
+    "v_stdv": "total.stdv / self.stdv of a node is not the relative standard deviation (sigma/mean*100) of its invocations",
+    "v_stdv_sort": "rows sorted with -s total_stdv / self_stdv are not in descending order of that figure",
+    "v_stdv_print": "`uftrace report --avg-total/--avg-self`: the printed stdv is not the relative standard deviation, or the "
+                    "rows of -s stdv are out of order",
 }
 MODEL = {
     "m_rows": "per-call rows (report_update_node) differ from the model's task_rows",
@@ -856,6 +1069,9 @@ MODEL = {
     "m_stdout": "`uftrace report` stdout differs from the model's stdout_model",
     "m_task": "`uftrace report --task` differs from the model's task_line",
     "m_diff2": "`uftrace report --diff OTHER` differs from the model's diff_stdout",
+    "m_stdv": "total.stdv / self.stdv (doubles) differ bit-for-bit from the model's report_stdv",
+    "m_stdv_sort": "row order for the keys total_stdv / self_stdv differs from the model's sort_f",
+    "m_stdv_print": "printed stdv column (%9.2f) or its row order differs from the model",
 }
 
 
@@ -901,13 +1117,26 @@ def known_findings(ctx, kept):
                               still_fails=bool(wrapped), replay={"case": case_json(case), "impl": case["impl"]})
 
 
+def known_finding_lost_inherited(ctx, kept):
+    """lost-in-inherited-data: the witness runs on the implementation on every run; still failing = leaf (called
+    once, 300 ns) is listed with 2 calls.  Model side: C08_lost_in_inherited_refuted."""
+    for case in kept:
+        if WITNESS_LOST_INHERITED in case["tags"]:
+            leaf = [n for n in case["impl"]["nodes"] if n[0] == "leaf"]
+            ctx.known_finding("lost-in-inherited-data",
+                              "a LOST marker in data that starts at depth > 0 closes the innermost open call with 1 ns "
+                              "and counts it twice: %s" % (leaf or case["impl"]["nodes"]),
+                              still_fails=bool(leaf) and leaf[0][1] != 1, replay={"case": case_json(case), "impl": case["impl"]})
+
+
 def run(ctx):
     common_meta(ctx)
     objdir, exe = setup(ctx)
-    cases = corpus_cases() + [gen_case(ctx, i) for i in range(ctx.n(260, 2500))]
-    terms, kept, eterms, ekept = explore(ctx, objdir, exe, cases, ctx.n(45, 400))
+    cases = corpus_cases() + [gen_case(ctx, i) for i in range(ctx.n(230, 2500))]
+    terms, kept, eterms, ekept = explore(ctx, objdir, exe, cases, ctx.n(36, 400))
     ctx.log("explored %d cases (%d end-to-end) on the implementation" % (len(kept), len(ekept)))
     known_findings(ctx, kept)
+    known_finding_lost_inherited(ctx, kept)
     # evaluate in chunks (keeps each vm_compute file moderate); the e2e cases are the first ones
     chunk = 600
     for a in range(0, max(len(terms), 1), chunk):
